@@ -323,6 +323,83 @@ class AbsSchedule(VAbs):
         raise KeyError(name)
 
 
+class AbsSharedMap(VAbs):
+    """multiprocessing.Manager().dict(): every single operation (in, [], []=, clear) is atomic; values read are equal to
+    values written. State lives in ghost g_present / g_val (maps over integer keys). Between any two operations other
+    processes may interfere according to the ghost flag g_rely: 0 nobody (sequential), 1 other readers add k -> Base[k],
+    2 additionally clear() at any time."""
+    label = "shared-dict"
+
+    def __init__(self, name, idx=()):
+        self.name = name
+
+    def interfere(self, st, eng):
+        mode = st.ghost.get("g_rely")
+        if mode is None:
+            return
+        m = mode.t
+        pres, val = st.ghost["g_present"], st.ghost["g_val"]
+        np_, nv = fresh(TSeq(BOOL), "present_after"), fresh(TSeq(VAL), "val_after")
+        k = z3.Int(uid("k"))
+        base = st.consts["BaseItem"]
+        bk = base.fn([VInt(k)], {}, st, eng)[0][1].t
+        # guarantee: at every point where others may look, the map invariant holds (our own writes keep it)
+        kk = z3.Int(uid("k"))
+        bkk = base.fn([VInt(kk)], {}, st, eng)[0][1].t
+        eng.oblige(st, "guarantee:map-invariant-before-interference", "vc",
+                   z3.Implies(z3.And(kk >= 0, pres.elem(kk).t), val.elem(kk).t == bkk), getattr(eng, "cur_call_node", None),
+                   note="every cached entry equals the wrapped dataset's sample whenever another process may observe the map")
+        st.assume(z3.ForAll([k], z3.Implies(z3.And(k >= 0, np_.elem(k).t), nv.elem(k).t == bk)))
+        grow = z3.ForAll([k], z3.Implies(pres.elem(k).t, z3.And(np_.elem(k).t, nv.elem(k).t == val.elem(k).t)))
+        sound = z3.ForAll([k], z3.Implies(np_.elem(k).t, z3.Or(z3.And(pres.elem(k).t, nv.elem(k).t == val.elem(k).t), nv.elem(k).t == bk)))
+        same = z3.ForAll([k], z3.And(np_.elem(k).t == pres.elem(k).t, nv.elem(k).t == val.elem(k).t))
+        st.assume(z3.If(m == 0, same, z3.If(m == 1, z3.And(grow, sound), sound)))
+        st.ghost["g_present"], st.ghost["g_val"] = np_, nv
+
+    def call_method(self, name, args, kwargs, st, eng):
+        if name == "__contains__":
+            self.interfere(st, eng)
+            k = _e.to_int(eng.deref(args[0], st))
+            return [(st, VBool(st.ghost["g_present"].elem(k).t))]
+        if name == "__setitem__":
+            self.interfere(st, eng)
+            k = _e.to_int(eng.deref(args[0], st))
+            st.ghost["g_present"] = _upd(st.ghost["g_present"], k, VBool(True))
+            st.ghost["g_val"] = _upd(st.ghost["g_val"], k, args[1])
+            return [(st, NONEV)]
+        raise Unsupported(f"shared dict .{name}")
+
+    def getitem(self, idx, st, eng):
+        self.interfere(st, eng)
+        k = _e.to_int(eng.deref(idx, st))
+        p = st.ghost["g_present"].elem(k).t
+        ok, bad = st.fork().assume(p), st.fork().assume(z3.Not(p))
+        out = []
+        if feasible(bad.pc):
+            eng.pending_raises.append((bad, "KeyError"))
+        if feasible(ok.pc):
+            out.append((ok, ok.ghost["g_val"].elem(k)))
+        return out
+
+    def getattr(self, name, st, eng):
+        if name == "clear":
+            def f(a, kw, s, e):
+                s.ghost["g_present"] = VSeq(s.ghost["g_present"].len, lambda i: VBool(False), BOOL)
+                return NONEV
+            return VFunc("shared.clear", f)
+        if name == "get":
+            def f(a, kw, s, e):
+                self.interfere(s, e)
+                k = _e.to_int(e.deref(a[0], s))
+                p = s.ghost["g_present"].elem(k).t
+                d = a[1] if len(a) > 1 else NONEV
+                return ite(p, s.ghost["g_val"].elem(k), d) if isinstance(d, VVal) else VOpt(z3.Not(p), s.ghost["g_val"].elem(k))
+            return VFunc("shared.get", f)
+        raise KeyError(name)
+
+
+SHAREDMAP = TAbs(lambda name, idx: AbsSharedMap(name, idx), "shared-dict")
+
 RAW, RAW_CTX, COLLATED, COLLATED_PAIR, CTXLIST, CTXDICT = range(6)
 
 
